@@ -1110,6 +1110,9 @@ def outer(a, b):
     fa, fb = a.snapshot(), b.snapshot(); dt = _rnp.result_type(a.dtype, b.dtype)
     return ndarray.fresh((a.shape[0], b.shape[0]), lambda i: core.cast(fa((i[0],)) * fb((i[1],)), dt), dt)
 def array_equal(a, b):
+    if not isinstance(a, ndarray) and not isinstance(b, ndarray):      # concrete python objects (ranges, lists, Ellipsis, None): numpy's own answer
+        try: return builtins.bool(_rnp.array_equal(a, b))
+        except Exception: return False
     a, b = asarray(a), asarray(b)
     if a.ndim != b.ndim: return False
     for x, y in zip(a.shape, b.shape):
